@@ -1,7 +1,7 @@
 (* Link between the theorems about the built-in input modifiers (Proofs/ModifP.v) and the executable
    judgement Check/C18c.v: the judgement accepts the model's own output on every well-formed case
    (soundness), and every output that agrees exactly with the model's (transfer, exact mode). *)
-From Coq Require Import Qpower Psatz.
+From Coq Require Import Qpower Lia Lqa ZArith.   (* not Psatz: it loads Reals and with it the classical axioms of the real numbers *)
 From BEI Require Import Model.Modif Proofs.ValueP Proofs.CondP Proofs.ModifP Check.Lib Check.C18c.
 Open Scope Q_scope.
 
